@@ -118,6 +118,7 @@ Inv_C04a == C04a(s)
 Inv_C04b == C04b(s) \/ KF_JumpBack(s)
 Inv_C04c == C04c(s)
 Inv_C05  == C05(s) \/ KF_HoldLeft(s) \/ KF_Late(s)
+Inv_C05tr == C05tr(s)
 Inv_C10b == C10b(s)
 Inv_C18b == C18b(s) \/ KF_HoldLeft(s)
 
@@ -127,7 +128,7 @@ Act_C02 == [][ActOK("C02") /\ ActOK("C02pause") /\ ActOK("C02promote") /\ ActOK(
 Act_C03 == [][ActOK("C03a") /\ ActOK("C03b") /\ ActOK("C03c")]_vars
 Act_C10 == [][ActOK("C10a")]_vars
 Act_C11 == [][ActOK("C11a") /\ ActOK("C11b") /\ ActOK("C11c") /\ ActOK("C11d")]_vars
-Act_C18 == [][(ActOK("C18a") \/ KF_HoldLeft(s)) /\ ActOK("C18br")]_vars
+Act_C18 == [][(ActOK("C18a") \/ KF_HoldLeft(s)) /\ ActOK("C18br") /\ ActOK("C18tr")]_vars
 
 \* B2: dump the reachable abstract states (ModelView) for comparison with the implementation's
 DumpView == IOEnv.VERIF_DUMP # "1" \/ PrintT(<<"ST", ToJson(ModelView(s))>>)
